@@ -88,6 +88,10 @@ def build(v):
     elif kind == 'badtype':
         a = [x for x in t['attributes'] if x['member'] == v['which']][0]
         setattr(inst, v['which'], WRONG[(a['type'], v['how'])])
+    elif kind == 'goodtype':
+        setattr(inst, v['which'], v['how'])
+    elif kind == 'good_text':
+        inst.text = v['how']
     elif kind == 'bad_enum':
         a = [x for x in t['attributes'] if x['member'] == v['which']][0]
         setattr(inst, v['which'], swapcase_literal(a['enum']) if v.get('how') == 'case' else 'not-in-the-enumeration')
@@ -202,7 +206,7 @@ def main():
     chk.cov['rule'] = ('variants of Schema.tla (validate): per class the minimal valid instance, every required attribute missing / empty, '
                       'every child with a declared minimum one below it, every list child with a declared maximum one above it, every '
                       'attribute of a checked simple type with each class of wrong value, every enumerated attribute / text with a '
-                      'value outside the enumeration; each also nested under up to %d possible parents' % (40 if chk.tier == 'thorough' else 3))
+                      'value outside the enumeration, every duration-typed attribute / text with each of the 63 component layouts of a valid duration (and two negative ones); each also nested under up to %d possible parents' % (40 if chk.tier == 'thorough' else 3))
     chk.cov['classes'] = len(table())
     chk.assumptions = ['the otherwise-valid instance is generated from the tables (required attributes, children at their minimum)',
                        'classes whose verify() is overridden are exempt from the must-be-valid clause']
